@@ -229,6 +229,7 @@ var totalFamilies = []string{"open-brackets", "open-braces-value", "open-selecti
 // runTotalBatch feeds requests to a child process and collects results; a
 // crash or a hang is attributed to the request that was running.
 func runTotalBatch(c *core.Ctx, reqs []totReq, descr func(int) string, perCase time.Duration, sink func(int, *totCase)) {
+	deaths := 0
 	start := 0
 	for start < len(reqs) {
 		exe, _ := os.Executable()
@@ -307,6 +308,11 @@ func runTotalBatch(c *core.Ctx, reqs []totReq, descr func(int) string, perCase t
 		_ = cur
 		detail := firstLines(errTail.String(), 6)
 		c.Violation(fmt.Sprintf("%s on input %s: %s", what, descr(done), detail), map[string]any{"request": reqs[done], "what": what, "stderr": errTail.String()})
+		deaths++
+		if deaths >= 40 {
+			c.Logf("stopped after %d crashes / hangs of the child process (each is reported above)", deaths)
+			return
+		}
 		start = done + 1
 		for range lines {
 		}
